@@ -224,7 +224,7 @@ type gen struct {
 	lit  bool // literals only (no `?`)
 }
 
-var strPool = []string{"a", "b", "c", "ab", "abc", "A", "1", "2", "10", "7", "1.0", " 3", "x1", "", "a b", "été", "%", "a_c", "3 ", "1.5", "-2", "9x", "zz"}
+var strPool = []string{"a", "b", "c", "ab", "abc", "A", "1", "2", "10", "7", "1.0", " 3", "x1", "", "a b", "été", "%", "a_c", "3 ", "1.5", "-2", "9x", "zz", "1e1", "07", "+4", ".5"}
 
 func (g *gen) mixCase(name string) string {
 	switch g.r.Intn(6) {
@@ -362,6 +362,9 @@ var cmpOps = []string{"=", "=", "=", "<>", "!=", "<", "<=", ">", ">="}
 
 func (g *gen) pred(depth int) string {
 	r := g.r
+	if r.Chance(1, 90) { // outside the Coq grammar: counted as skipped by the tie
+		return "LENGTH(" + g.s.Cols[g.anyCol()].Name + ") > 1"
+	}
 	k := r.Intn(14)
 	if depth <= 0 && k >= 11 {
 		k = r.Intn(11)
@@ -378,8 +381,10 @@ func (g *gen) pred(depth int) string {
 		n := 1 + r.Intn(3)
 		items := make([]string, n)
 		for i := range items {
-			if r.Chance(1, 10) {
+			if r.Chance(1, 5) {
 				items[i] = g.emitNull()
+			} else if a, ok := g.existing(ci); ok && a.T != "null" && r.Chance(1, 2) {
+				items[i] = g.emitArg(a)
 			} else {
 				items[i] = g.val(ci, false)
 			}
